@@ -36,6 +36,32 @@ type Case struct {
 	Chunks  []int  `json:"chunks"`
 	EOFWith bool   `json:"eof_with_data"`
 	Desc    string `json:"desc"`
+	// Big encodings (decoder message or value): the body is BigLen generated
+	// bytes instead of Hex, and only the listed cut positions are tried.
+	BigLen int   `json:"big_len,omitempty"`
+	Cuts   []int `json:"cuts,omitempty"`
+}
+
+// bigData builds the encoding of a big case: a message with a BigLen byte
+// payload, or a dynamic value holding a raw buffer (or a string) of BigLen bytes.
+func bigData(c Case) []byte {
+	body := make([]byte, c.BigLen)
+	for i := range body {
+		body[i] = 'a' + byte(i%23)
+	}
+	switch c.Decoder {
+	case "message":
+		w := &hio.RecWriter{}
+		m := qnet.NewMessage(qnet.NewHeader(qnet.Call, 2, 1, 100, 7), body)
+		m.Write(w)
+		return w.Bytes()
+	default:
+		ty := ref.Scalar(ref.KRaw)
+		if c.Sig == "s" {
+			return ref.EncodeDyn(ref.Dyn{T: ref.Scalar(ref.KString), V: string(body)})
+		}
+		return ref.EncodeDyn(ref.Dyn{T: ty, V: body})
+	}
 }
 
 const serviceInfoSig = "(sIsI[s]ss)<ServiceInfo,name,serviceId,machineId,processId,endpoints,sessionId,objectUid>"
@@ -50,6 +76,9 @@ func typeOpts() gen.TypeOpts {
 }
 
 func genCase(t *rapid.T) Case {
+	if rapid.IntRange(0, 24).Draw(t, "big") == 0 {
+		return genBig(t)
+	}
 	dec := rapid.SampledFrom(decoders).Draw(t, "decoder")
 	vo := gen.DefaultValueOpts()
 	vo.MaxLen = 3
@@ -107,6 +136,45 @@ func genCase(t *rapid.T) Case {
 	return c
 }
 
+// genBig: an encoding of tens or hundreds of kilobytes, cut where chunked or
+// buffered readers are most likely to stop: at and around multiples of powers
+// of two (counted from the start of the body and of the stream), near both
+// ends, and at a few random places.
+func genBig(t *rapid.T) Case {
+	plan := gen.FragPlan().Draw(t, "plan")
+	c := Case{Decoder: rapid.SampledFrom([]string{"message", "message", "value"}).Draw(t, "bigdecoder"), Chunks: plan.Chunks, EOFWith: plan.EOFWith}
+	if c.Decoder == "value" {
+		c.Sig = rapid.SampledFrom([]string{"r", "s"}).Draw(t, "bigkind")
+	}
+	c.BigLen = rapid.SampledFrom([]int{4097, 8192, 10000, 65535, 65536, 65537, 100000, 131072, 131073, 200000}).Draw(t, "biglen")
+	total := len(bigData(c))
+	head := total - c.BigLen
+	add := func(k int) {
+		if k >= 0 && k < total {
+			c.Cuts = append(c.Cuts, k)
+		}
+	}
+	for _, unit := range []int{4096, 65536} {
+		for m := 0; m*unit <= c.BigLen; m++ {
+			for _, d := range []int{-1, 0, 1} {
+				add(head + m*unit + d)
+				add(m*unit + d)
+			}
+			if m > 6 {
+				m += rapid.IntRange(0, 8).Draw(t, "skip")
+			}
+		}
+	}
+	for _, k := range []int{0, 1, head - 1, head, head + 1, total - 2, total - 1} {
+		add(k)
+	}
+	for i := 0; i < 8; i++ {
+		add(rapid.IntRange(0, total-1).Draw(t, "cut"))
+	}
+	c.Desc = fmt.Sprintf("%s with a %d byte body", c.Decoder, c.BigLen)
+	return c
+}
+
 // decode runs the named decoder over r; it returns the decoder's error and a
 // recovered panic (a panic is C07's business but is reported here as well).
 func decode(c Case, ty *ref.Type, r io.Reader) (err error, panicked interface{}) {
@@ -159,9 +227,15 @@ func checkCase(c Case) error {
 	if err != nil {
 		return vt.Violationf("C08:bad-case", "hex: %v", err)
 	}
+	if c.BigLen > 0 {
+		data = bigData(c)
+	}
 	var ty *ref.Type
 	var spans []ref.Span
-	if c.Decoder == "message" {
+	if c.BigLen > 0 && c.Decoder != "message" {
+		head := len(data) - c.BigLen
+		spans = []ref.Span{{Start: 0, End: head - 4, What: "signature"}, {Start: head - 4, End: head, What: "length"}, {Start: head, End: len(data), What: "body"}}
+	} else if c.Decoder == "message" {
 		spans = []ref.Span{{Start: 0, End: 4, What: "magic"}, {Start: 4, End: 28, What: "header"}, {Start: 28, End: len(data), What: "payload"}}
 	} else {
 		if ty, err = ref.ParseSig(c.Sig); err != nil {
@@ -184,7 +258,17 @@ func checkCase(c Case) error {
 		return vt.Violationf("C08:"+c.Decoder+":complete-rejected", "%s decoder rejects the complete encoding of %s %s: %v %v", c.Decoder, c.Sig, c.Desc, err, p)
 	}
 	nontrivialCuts := 0
-	for k := 0; k < len(data); k++ {
+	cuts := c.Cuts
+	if c.BigLen == 0 {
+		cuts = make([]int, len(data))
+		for k := range cuts {
+			cuts[k] = k
+		}
+	}
+	for _, k := range cuts {
+		if k < 0 || k >= len(data) {
+			continue
+		}
 		r := hio.NewFragReader(data[:k], c.Chunks, c.EOFWith)
 		err, p := decode(c, ty, r)
 		idx, sp, _ := spanAt(spans, k)
@@ -199,12 +283,15 @@ func checkCase(c Case) error {
 			nontrivialCuts++
 		}
 	}
-	vt.LabelN("cuts", int64(len(data)))
+	vt.LabelN("cuts", int64(len(cuts)))
+	if c.BigLen > 0 {
+		vt.Label("big-encoding")
+	}
 	vt.LabelN("cuts-strictly-inside-a-later-field", int64(nontrivialCuts))
 	nontrivial := len(spans) >= 2 && nontrivialCuts > 0
-	vt.Case(nontrivial, c.Decoder+"|"+c.Sig+"|"+c.Hex, "decoder="+c.Decoder)
+	vt.Case(nontrivial, fmt.Sprintf("%s|%s|%s|%d|%v", c.Decoder, c.Sig, c.Hex, c.BigLen, c.Cuts), "decoder="+c.Decoder)
 	if nontrivial {
-		vt.Sample("encoding", map[string]interface{}{"decoder": c.Decoder, "sig": c.Sig, "value": c.Desc, "hex": c.Hex, "cuts": len(data)})
+		vt.Sample("encoding", map[string]interface{}{"decoder": c.Decoder, "sig": c.Sig, "value": c.Desc, "hex": c.Hex, "cuts": len(cuts)})
 	}
 	return nil
 }
